@@ -72,9 +72,13 @@ V("C18", "substituted atoms become members", "R18.1", (LUN, "                for
 V("C01", "alias instead of copy", "R01.1", (SBC, "system_copy = system.copy()", "system_copy = system"))
 V("C01", "wrap the argument", "R01.1", (SBC, "        # Positions are wrapped\n        system_copy.wrap()",
                                         "        # Positions are wrapped\n        system.wrap()\n        system_copy.wrap()"))
-V("C01", "hand the argument to PeriodicFinder and Cluster", "R01.1",
+V("C01", "twin: the argument is kept by the clusters, whose methods only read it", "silent",
   (SBC, "                        system=system_copy,\n                        distances=distances,\n                        radii=radii,",
         "                        system=system,\n                        distances=distances,\n                        radii=radii,"))
+V("C01", "the argument is kept by the clusters and a cluster method wraps the structure it keeps", "R01.1",
+  (SBC, "                        system=system_copy,\n                        distances=distances,\n                        radii=radii,",
+        "                        system=system,\n                        distances=distances,\n                        radii=radii,"),
+  (CLU, "        return self._system[self.indices]\n", "        self._system.wrap()\n        return self._system[self.indices]\n"))
 V("C01", "twin: copy via Atoms slicing idiom", "silent", (SBC, "system_copy = system.copy()", "system_copy = system.copy()\n        system_copy = system_copy.copy()"))
 V("C01", "unseeded generator", "R01.2", (SBC, "np.random.default_rng(seed)", "np.random.default_rng()"))
 V("C01", "global numpy RNG for the seed atom", "R01.2", (SBC, "i_seed = self.rng.choice(list(indices), 1)[0]", "i_seed = np.random.choice(list(indices), 1)[0]"))
@@ -413,7 +417,7 @@ V("C08", "return_parameters forced on", "R08.4", (SYM, "            return_param
 _HOM_A = "            n_pos = len(system)\n            old_pos = np.empty((n_pos, 4))\n            old_pos[:, 3] = 1\n            old_pos[:, 0:3] = system.get_scaled_positions()\n"
 _HOM_B = "            transformed_positions = np.dot(old_pos, best_transformation_matrix.T)\n\n            # Get rid of the extra dimension of the homogeneous coordinates\n            transformed_positions = transformed_positions[:, 0:3]\n"
 _BLK_A = "            rotation = best_transformation_matrix[0:3, 0:3]\n            translation = best_transformation_matrix[0:3, 3]\n"
-for _pid in ("C06", "C07", "C08", "C11", "C12", "C14"):
+for _pid in ("C04", "C06", "C07", "C08", "C11", "C12", "C14"):
     V(_pid, "twin: block form R x + t with the positions read inline", "silent", (SYM, _HOM_A, _BLK_A),
       (SYM, _HOM_B, "            transformed_positions = np.dot(system.get_scaled_positions(), rotation.T) + translation\n"))
     V(_pid, "twin: block form R x + t", "silent", (SYM, _HOM_A, _BLK_A + "            old_pos = system.get_scaled_positions()\n"),
@@ -423,4 +427,30 @@ V("C06", "block form, positions inline, translation added before the rotation", 
 V("C07", "block form, positions inline, translation added before the rotation", "R07.6", (SYM, _HOM_A, _BLK_A),
   (SYM, _HOM_B, "            transformed_positions = np.dot(system.get_scaled_positions() + translation, rotation.T)\n"))
 V("C05", "twin: block form with the translation rotated is still a proper rigid motion of the standardised atoms", "silent", (SYM, _HOM_A, _BLK_A),
+  (SYM, _HOM_B, "            transformed_positions = np.dot(system.get_scaled_positions() + translation, rotation.T)\n"))
+
+# ------------------------------------------------------------------------------------------ import-time code of the table module (round 7)
+V("C14", "table constants snapped to twelfths at import", "C14.readonly", (TAB, "from numpy import array, float64\n", "from numpy import array, float64, rint\n"),
+  (TAB, "<EOF>", "\nfor _sets in WYCKOFF_SETS.values():\n    for _key, _value in _sets.items():\n        if _key == \"translations\":\n            _sets[_key] = rint(_value * 12) / 12\n        else:\n            _value[\"constants\"] = rint(_value[\"constants\"] * 12) / 12\n"))
+V("C14", "twin: table entries converted to arrays at import (representation only)", "silent",
+  (TAB, "<EOF>", "\nfor _sets in WYCKOFF_SETS.values():\n    for _key, _value in _sets.items():\n        if _key != \"translations\":\n            _value[\"constants\"] = array(_value[\"constants\"])\n"))
+V("C14", "twin: an index built from the tables at import", "silent",
+  (TAB, "<EOF>", "\nLETTERS_BY_GROUP = {}\nfor _number, _sets in WYCKOFF_SETS.items():\n    LETTERS_BY_GROUP[_number] = sorted(k for k in _sets if k != \"translations\")\n"))
+V("C08", "table constants snapped to twelfths at import", "R08.T", (TAB, "from numpy import array, float64\n", "from numpy import array, float64, rint\n"),
+  (TAB, "<EOF>", "\nfor _sets in WYCKOFF_SETS.values():\n    for _key, _value in _sets.items():\n        if _key != \"translations\":\n            _value[\"constants\"] = rint(_value[\"constants\"] * 12) / 12\n"))
+
+# ------------------------------------------------------------------------------------------ cleaned clusters rebuilt as new objects (cross-check of C03-4)
+_CLEAN_OLD = "            cluster.indices = np.array(cluster.indices)[largest_indices].tolist()\n            clusters_cleaned.append(cluster)\n"
+_CLEAN_NEW = ("            clusters_cleaned.append(\n                Cluster(\n                    np.array(cluster.indices)[largest_indices].tolist(),\n"
+              "                    cluster.species,\n                    cluster._region,\n                    system=cluster._system,\n"
+              "                    distances=cluster._distances,\n                    radii=cluster._radii,\n                    bond_threshold=bond_threshold,\n                )\n            )\n")
+for _pid in ("C01", "C03", "C13", "C04", "C19"):
+    V(_pid, "twin: cleaning returns rebuilt Cluster objects with the full clustering context", "silent", (SBC, _CLEAN_OLD, _CLEAN_NEW))
+V("C13", "cleaning returns rebuilt Cluster objects that forget the bond threshold", "R13.2", (SBC, _CLEAN_OLD, _CLEAN_NEW.replace("                    bond_threshold=bond_threshold,\n", "")))
+
+# ------------------------------------------------------------------------------------------ image numbers by truncation (round 7, C04-5)
+for _pid, _rid in (("C04", "R04.11"), ("C03", "R03.9"), ("C18", "R18.9")):
+    V(_pid, "image numbers of the searched cell by integer cast instead of floor", _rid, (GEO, "    factors = np.floor(rel_vectors).astype(int)\n", "    factors = rel_vectors.astype(int)\n"))
+    V(_pid, "twin: image numbers by floor division", "silent", (GEO, "    factors = np.floor(rel_vectors).astype(int)\n", "    factors = (rel_vectors // 1).astype(int)\n"))
+V("C08", "block form, positions inline, translation added before the rotation", "R08.7", (SYM, _HOM_A, _BLK_A),
   (SYM, _HOM_B, "            transformed_positions = np.dot(system.get_scaled_positions() + translation, rotation.T)\n"))
